@@ -12,7 +12,7 @@
 (* The model feeds what the two chains show into the actions of Genesis.tla exactly as the driver    *)
 (* does, and TLC checks that the invariants of Genesis.tla                                           *)
 (*   - hold on every behaviour of the faithful implementation (Sound),                               *)
-(*   - are violated by every deviation that is a deviation (Detects*), in the facet of the deviating  *)
+(*   - are violated by every deviation that is a deviation (the Detects invariants), in the facet of the deviating  *)
 (*     collection, and                                                                               *)
 (*   - are not violated in any facet that cannot depend on it (NoFalseAlarm), while every exempt     *)
 (*     facet has a reported cause (ExemptHasCause).                                                  *)
